@@ -15,6 +15,8 @@ func init() {
 		},
 		NotDecided: []string{"numeric results of the aggregators (Welford, quantile interpolation)", "that the storage delivers samples in time order", "equality instant = range at T beyond the shared code path"},
 		Rules: func(r *Run) {
+			ruleOneStepPerNext(r)
+			ruleStepBuffers(r)
 			ruleRangeWindow(r)
 			ruleRangeBuild(r)
 			ruleStepper(r)
